@@ -74,7 +74,7 @@ type Worker struct {
 
 	nForks, nForkQueries, nAssumeQueries         int
 	nAssertQueries, nAssertUnsat, nAssertTrivial int
-	nCross, nCrossDisagree                       int
+	nCross, nCrossDisagree, nCrossNoAnswer       int
 	steps                                        int64
 	paths                                        int
 	funcs                                        map[*ssa.Function]bool
@@ -185,7 +185,19 @@ func (w *Worker) crossCheck(p *Path, neg *Term, res Result) {
 	cs := append(append([]*Term{}, p.pc...), neg)
 	for _, s := range w.aux {
 		w.nCross++
+		if s.Timeouts >= 5 {
+			// this back end keeps running into its limit on this encoding: stop
+			// asking it (counted as cross-checks without answer)
+			w.nCrossNoAnswer++
+			continue
+		}
 		r, _ := s.Check(cs, nil)
+		if r == RUnknown {
+			// the cross-checking solver gave no answer in its time limit: the
+			// main verdict stands, the gap is reported in the evidence
+			w.nCrossNoAnswer++
+			continue
+		}
 		if r != res {
 			w.nCrossDisagree++
 			e := w.eng
@@ -284,6 +296,7 @@ func (e *Engine) worker(id int, harnesses map[string]*ssa.Function, wg *sync.Wai
 		if err != nil {
 			panic(err)
 		}
+		s.SetLimit(20 * time.Second)
 		w.aux = append(w.aux, s)
 		defer s.Close()
 	}
@@ -336,7 +349,7 @@ func typesPointer(t *ssa.Type) types.Type { return types.NewPointer(t.Type()) }
 type aggStats struct {
 	Forks, ForkQueries, AssumeQueries                                  int
 	AssertQueries, AssertUnsat, AssertTrivial                          int
-	Cross, CrossDisagree, CacheHits                                    int
+	Cross, CrossDisagree, CacheHits, CrossNoAnswer                     int
 	Steps                                                              int64
 	Paths                                                              int
 	SolverQueries, SolverSat, SolverUnsat, SolverUnknown, SolverErrors int
@@ -355,6 +368,7 @@ func (a *aggStats) add(w *Worker) {
 	a.AssertUnsat += w.nAssertUnsat
 	a.AssertTrivial += w.nAssertTrivial
 	a.CacheHits += w.nCacheHits
+	a.CrossNoAnswer += w.nCrossNoAnswer
 	a.Cross += w.nCross
 	a.CrossDisagree += w.nCrossDisagree
 	a.Steps += w.steps
@@ -368,8 +382,6 @@ func (a *aggStats) add(w *Worker) {
 	for _, s := range w.aux {
 		a.AuxQueries[s.name] += s.Queries
 		a.AuxTime[s.name] += s.Time
-		a.SolverUnknown += s.Unknown
-		a.SolverErrors += s.Errors
 	}
 }
 
